@@ -16,6 +16,8 @@ from ..dataflow import Flow, chain, call_name
 from ..absint import Interp
 from ..ordtype import weak_orderings, Ordering, Evaluator, OrdError
 from ..poly import Poly, le, lt
+from ..terms import Terms, reify, plain, match, V, ANY, show, subterms, \
+    mk_cmp, is_none, method_calls, alternatives, stores, yields, one_level
 from ..util import calls_in, qual, formals, returns_of, has_fact, parse_expr
 
 GEO = "rig.geometry"
@@ -143,79 +145,167 @@ def r1_tables(program, folder, rep):
 
 
 def r2_walk(program, folder, rep):
+    """The walk is evaluated case by case (dimension 0/1/2 x sign of the
+    magnitude) on value terms: what is added to the position and what the
+    hop is labelled with, wherever in the loops those are computed."""
     fn = program.get(RU + ":longest_dimension_first")
     inst = qual(fn)
-    fl = Flow(fn)
-    want = {0: ("sign", "0"), 1: ("0", "sign"), 2: ("-sign", "-sign")}
-    seen = {}
-    for n in ast.walk(fn):
-        if isinstance(n, ast.Assign) and isinstance(n.targets[0], ast.Tuple)\
-                and [chain(t) for t in n.targets[0].elts] == ["dx", "dy"]:
-            node = fl.cfg.node_of(n)
-            for c, pol, _ in fl.facts(node):
-                if pol and isinstance(c, ast.Compare) and \
-                        chain(c.left) == "dimension" and \
-                        isinstance(c.ops[0], ast.Eq):
-                    k = folder.eval(c.comparators[0], {}, fn._module)
-                    seen[k] = tuple(unparse(e) for e in n.value.elts)
-    for k in (0, 1, 2):
-        rep.check(seen.get(k) == want[k], "C11-R2", inst,
-                  "dimension %d steps by (%s, %s)" % ((k,) + want[k]),
-                  construct="dimension %d step %s" % (k, seen.get(k)),
-                  node=fn)
-    sg = [d for d in fl.defs if d.var == "sign" and d.mode == "assign"]
-    rep.check(len(sg) == 1 and unparse(sg[0].value) ==
-              "1 if magnitude > 0 else -1", "C11-R2", inst,
-              "sign = +1 for a positive magnitude, else -1",
-              construct="sign", node=fn)
-    # the label is from_vector of the step just added
+    T = Terms(fn)
+    cfg = T.cfg
     fv = calls_in(fn, "from_vector")
-    ok = False
-    if len(fv) == 1 and isinstance(fv[0].args[0], ast.Tuple):
-        nodec = fl.cfg.node_containing(fv[0])
-        names = [chain(e) for e in fv[0].args[0].elts]
-        adds = {}
-        for d in fl.defs:
-            if d.mode == "aug" and d.var in ("x", "y") and \
-                    isinstance(d.value.op, ast.Add):
-                adds[d.var] = (chain(d.value.value), d.node)
-        ok = names == ["dx", "dy"] and adds.get("x", (None,))[0] == "dx" \
-            and adds.get("y", (None,))[0] == "dy" and all(
-                [q.id for q in fl.reaching(nm, nodec)] ==
-                [q.id for q in fl.reaching(nm, adds[v][1])]
-                for nm, v in (("dx", "x"), ("dy", "y")))
-    rep.check(ok, "C11-R2", inst, "each step is labelled with "
+    aps = [x for x in method_calls(T, "append")
+           if len(x[3]) == 1 and x[3][0][0] == "tuple" and len(x[3][0]) == 3]
+    if len(fv) != 1 or len(aps) != 1:
+        raise AnalysisError("longest_dimension_first: one labelled step per "
+                            "hop expected")
+    an, acall, alist, (hop,) = aps[0]
+    fnode = cfg.node_containing(fv[0])
+    # dimension / magnitude: the two components of what the outer loop
+    # iterates
+    outer = acall
+    loops = []
+    while outer is not None and outer is not fn:
+        if isinstance(outer, ast.For):
+            loops.append(outer)
+        outer = getattr(outer, "_parent", None)
+    if len(loops) != 2:
+        raise AnalysisError("longest_dimension_first: dimension / hop loops")
+    hop_l, dim_l = loops
+    E = T._elem(T.term(dim_l.iter, cfg.loop_head[id(dim_l)]))
+    DIM, MAG = T._comp(E, 0, 2), T._comp(E, 1, 2)
+    want = {0: (1, 0), 1: (0, 1), 2: (-1, -1)}
+    bad_step = bad_label = False
+    xname = yname = None
+    if isinstance(acall.args[0].elts[1], ast.Tuple):
+        xname, yname = [chain(e) for e in acall.args[0].elts[1].elts]
+    pos = ("param", "magnitude")
+    for k in (0, 1, 2):
+        for sgn in (1, -1):
+            hyps = [(mk_cmp("Eq", DIM, ("const", j)), j == k)
+                    for j in range(k + 1)]
+            hyps += [(mk_cmp("Lt", ("const", 0), MAG), sgn == 1),
+                     (mk_cmp("Eq", MAG, ("const", 0)), False)]
+            H = T.under(*hyps)
+            lab = H.term(fv[0].args[0], fnode)
+            exp = ("tuple", ("const", sgn * want[k][0]),
+                   ("const", sgn * want[k][1]))
+            if _fold_t(lab) != exp:
+                bad_label = True
+            # what is added to the position in one hop
+            for var, comp in ((xname, 0), (yname, 1)):
+                adds = []
+                for b_ in H.binds:
+                    if b_.var != var or b_.mode not in ("assign", "aug") or \
+                            not _within(b_.node.ast, hop_l) or \
+                            not H.live(b_.node):
+                        continue
+                    t = _fold_t(H._bind_term(b_))
+                    if t[0] == "binop" and t[1] == "Add":
+                        d = [z for z in (t[2], t[3]) if z[0] == "const"]
+                        adds.append(d[0][1] if len(d) == 1 else None)
+                if adds != [exp[1 + comp][1]]:
+                    bad_step = True
+    rep.check(not bad_step, "C11-R2", inst, "dimension 0 / 1 / 2 steps by "
+              "(s, 0) / (0, s) / (-s, -s) with s the sign of the magnitude",
+              construct="dimension steps", node=fn)
+    rep.check(not bad_label, "C11-R2", inst, "each step is labelled with "
               "Links.from_vector of exactly the (dx, dy) added to the "
               "position", construct="step label", node=fn)
-    ap = calls_in(fn, "append")
-    oka = len(ap) == 1 and isinstance(ap[0].args[0], ast.Tuple) and \
-        unparse(ap[0].args[0].elts[1]) == "(x, y)"
-    wraps = {d.var: unparse(d.value.value) for d in fl.defs
-             if d.mode == "aug" and isinstance(d.value.op, ast.Mod)}
-    rep.check(oka and wraps == {"x": "width", "y": "height"}, "C11-R2",
+    lab_t = T.term(fv[0], fnode)
+    rep.check(hop[1] == lab_t or lab_t in alternatives(hop[1]), "C11-R2",
+              inst, "the hop recorded carries that label",
+              construct="sign", node=fn)
+    # wrap-around and order: update, wrap (when a size is given), record
+    okw = xname is not None
+    if okw:
+        for var, size in ((xname, "width"), (yname, "height")):
+            mods = [b_ for b_ in T.binds if b_.var == var and
+                    _within(b_.node.ast, hop_l) and
+                    T._bind_term(b_)[0] == "binop" and
+                    T._bind_term(b_)[1] == "Mod"]
+            okw = okw and len(mods) == 1 and \
+                T._bind_term(mods[0])[3] == ("param", size) and \
+                (is_none(("param", size)), False) in T.all_facts(
+                    mods[0].node) and cfg.reaches(mods[0].node, an) and \
+                not cfg.reaches(an, mods[0].node,
+                                avoid=[cfg.loop_head[id(hop_l)]])
+    rep.check(okw, "C11-R2",
               inst, "positions are wrapped modulo (width, height) and "
               "recorded after the step", construct="walk wrap", node=fn)
-    rg = [n for n in ast.walk(fn) if isinstance(n, ast.For) and
-          isinstance(n.iter, ast.Call) and unparse(n.iter) ==
-          "range(abs(magnitude))"]
-    rep.check(len(rg) == 1, "C11-R2", inst, "|magnitude| unit steps per "
+    it = plain(T.term(hop_l.iter, cfg.loop_head[id(hop_l)]))
+    rep.check(it == ("call", ("global", "range"),
+                     (("call", ("global", "abs"), (plain(MAG),), ()),), ()),
+              "C11-R2", inst, "|magnitude| unit steps per "
               "dimension", construct="steps per dimension", node=fn)
     # links_between
     lb = program.get(RU + ":links_between")
-    t = unparse(lb)
-    ok = "(ax + dx) % machine.width == bx" in t and \
-        "(ay + dy) % machine.height == by" in t and \
-        "(ax, ay, link) in machine" in t and "l.to_vector()" in t
+    L = Terms(lb)
+    ps = formals(lb)
+    A_, B_, M_ = [("param", p_) for p_ in ps[:3]]
+    rets = [L.term(r.value) for r in returns_of(lb) if r.value is not None]
+    ok = False
+    if len(rets) == 1:
+        built = L.filtered(rets[0])
+        if built and len(built) == 1:
+            itb, elt, conds = built[0]
+            LINK = elt
+            vec = None
+            for c, p_ in conds:
+                for st in subterms(c):
+                    if st[0] in ("call", "callv") and st[1][0] == "attr" \
+                            and st[1][2] == "to_vector":
+                        vec = st
+            if vec is not None and plain(vec[1][1]) == plain(LINK):
+                ax, ay = L._comp(A_, 0, 2), L._comp(A_, 1, 2)
+                bx, by = L._comp(B_, 0, 2), L._comp(B_, 1, 2)
+
+                def step(a, k, size):
+                    v = L._comp(vec, k, 2)
+                    return [mk_cmp("Eq", ("binop", "Mod",
+                                          ("binop", "Add", a, v),
+                                          ("attr", M_, size)), b)
+                            for b in (bx if k == 0 else by,)] + \
+                        [mk_cmp("Eq", ("binop", "Mod",
+                                       ("binop", "Add", v, a),
+                                       ("attr", M_, size)), b)
+                         for b in (bx if k == 0 else by,)]
+                cs = [(plain(c), p_) for c, p_ in conds]
+                ok = any((plain(x), True) in cs
+                         for x in step(ax, 0, "width")) and \
+                    any((plain(x), True) in cs
+                        for x in step(ay, 1, "height")) and \
+                    (plain(mk_cmp("In", ("tuple", ax, ay, LINK), M_)),
+                     True) in cs and len(cs) == 3 and \
+                    show(plain(LINK)).count("Links") >= 1
     rep.check(ok, "C11-R2", qual(lb), "links_between(a, b): links l of a "
               "with a + vec(l) == b (mod size) that are working at a",
               construct="links_between", node=lb)
     # hexagon rings
     ch = program.get(GEO + ":concentric_hexagons")
+    H = Terms(ch)
+
+    def depth(node_ast):
+        d = 0
+        p_ = getattr(node_ast, "_parent", None)
+        while p_ is not None and p_ is not ch:
+            if isinstance(p_, (ast.For, ast.While)):
+                d += 1
+            p_ = getattr(p_, "_parent", None)
+        return d
+    fors = sorted([n for n in ast.walk(ch) if isinstance(n, ast.For)],
+                  key=depth)
+    if len(fors) != 3 or [depth(f_) for f_ in fors] != [0, 1, 2]:
+        raise AnalysisError("concentric_hexagons: ring / side / step loops")
+    ring_l, side_l, step_l = fors
+    RING = ("elem", H.term(ring_l.iter, H.cfg.loop_head[id(ring_l)]))
+    side_it = H.term(side_l.iter, H.cfg.loop_head[id(side_l)])
     dirs = None
-    for n in ast.walk(ch):
-        if isinstance(n, ast.For) and isinstance(n.iter, (ast.List,
-                                                         ast.Tuple)):
-            dirs = [tuple(v) for v in folder.eval(n.iter, {}, ch._module)]
+    sd = side_it[2] if side_it[0] == "new" else side_it
+    if sd[0] in ("list", "tuple"):
+        try:
+            dirs = [tuple(_fold_t(c)[1] for c in d_[1:]) for d_ in sd[1:]]
+        except Exception:
+            dirs = None
     inv = {v: k for k, v in VEC.items()}
     ok = dirs is not None and len(dirs) == 6 and \
         all(d in inv for d in dirs) and \
@@ -226,20 +316,84 @@ def r2_walk(program, folder, rep):
     rep.check(ok, "C11-R2", qual(ch), "ring directions are the six link "
               "vectors in rotation order and sum to zero",
               construct="hexagon directions %s" % (dirs,), node=ch)
-    cfl = Flow(ch)
-    dec = [d for d in cfl.defs if d.var == "y" and d.mode == "aug" and
-           isinstance(d.value.op, ast.Sub) and
-           isinstance(d.value.value, ast.Constant) and
-           d.value.value.value == 1]
-    rings = [n for n in ast.walk(ch) if isinstance(n, ast.For) and
-             unparse(n.iter) == "range(1, radius + 1)"]
-    sides = [n for n in ast.walk(ch) if isinstance(n, ast.For) and
-             unparse(n.iter) == "range(r)"]
-    rep.check(len(dec) == 1 and len(rings) == 1 and len(sides) == 1,
-              "C11-R2", qual(ch), "rings 1..radius, each entered one step "
-              "south of the previous, r steps per side",
-              construct="hexagon ring structure", node=ch)
-    rep.floor("C11-R2", 9)
+    rp = plain(RING[1])
+    okr = rp in (("call", ("global", "range"), (("const", 1), (
+        "binop", "Add", ("param", formals(ch)[0]), ("const", 1))), ()),
+        ("call", ("global", "range"), (("const", 1), (
+            "binop", "Add", ("const", 1), ("param", formals(ch)[0]))), ()))
+    okr = okr and plain(H.term(step_l.iter, H.cfg.loop_head[id(step_l)])) \
+        == ("call", ("global", "range"), (plain(RING),), ())
+    # the walk: one unit south on entering a ring, then the side's direction
+    # at every step
+    ys = [n for n in ast.walk(ch) if isinstance(n, ast.Yield)]
+    yd = sorted(depth(y_) for y_ in ys)
+    okr = okr and yd == [0, 3]
+    pt = [y_ for y_ in ys if depth(y_) == 3]
+    if okr and isinstance(pt[0].value, ast.Tuple) and \
+            len(pt[0].value.elts) == 2:
+        xn, yn = [chain(e) for e in pt[0].value.elts]
+        DIRE = H._elem(side_it)
+        for var, k in ((xn, 0), (yn, 1)):
+            steps = [b_ for b_ in H.binds if b_.var == var and
+                     b_.mode in ("assign", "aug") and depth(b_.node.ast) == 3]
+            okr = okr and len(steps) == 1
+            if okr:
+                t = H._bind_term(steps[0])
+                okr = t[0] == "binop" and t[1] == "Add" and \
+                    H._comp(DIRE, k, 2) in (t[2], t[3])
+        south = [b_ for b_ in H.binds if b_.var == yn and
+                 b_.mode in ("assign", "aug") and depth(b_.node.ast) == 1]
+        okr = okr and len(south) == 1 and _fold_t(
+            H._bind_term(south[0]))[1:2] == ("Sub",) and \
+            H._bind_term(south[0])[3] == ("const", 1) and not [
+                b_ for b_ in H.binds if b_.var == xn and
+                b_.mode in ("assign", "aug") and depth(b_.node.ast) in (1, 2)]
+    else:
+        okr = False
+    rep.check(okr, "C11-R2", qual(ch), "rings 1..radius, each entered one "
+              "step south of the previous, r steps per side, one point "
+              "yielded per step and one for the centre (6r points per ring: "
+              "every point exactly once)",
+              construct="hexagon ring structure (yields at loop depths %s)"
+              % yd, node=ch,
+              fail="the hexagon walk does not yield exactly one point per "
+                   "step plus the centre (yields at loop depths %s): a ring "
+                   "of radius r does not produce its 6r points exactly "
+                   "once" % yd)
+    rep.floor("C11-R2", 7)
+
+
+def _lin(fl, t):
+    e = reify(plain(t))
+    for n in ast.walk(e):
+        for c in ast.iter_child_nodes(n):
+            c._parent = n
+    ast.fix_missing_locations(e)
+    return fl.sym(e, fl.cfg.entry)
+
+
+def _within(node, anc):
+    p = node
+    while p is not None:
+        if p is anc:
+            return True
+        p = getattr(p, "_parent", None)
+    return False
+
+
+def _fold_t(t):
+    """Fold unary minus / arithmetic on constants in a term."""
+    if not isinstance(t, tuple) or not t or t[0] == "const":
+        return t
+    t = tuple(_fold_t(x) if isinstance(x, tuple) else x for x in t)
+    if t[0] == "unop" and t[1] == "USub" and t[2][0] == "const":
+        return ("const", -t[2][1])
+    if t[0] == "binop" and t[2][0] == "const" and t[3][0] == "const" and \
+            t[1] in ("Add", "Sub", "Mult"):
+        a, b = t[2][1], t[3][1]
+        return ("const", a + b if t[1] == "Add" else a - b
+                if t[1] == "Sub" else a * b)
+    return t
 
 
 def _ord_eval(fn, terms, env_for, spec, rep, rule, text, premise=None):
@@ -421,46 +575,114 @@ def r3_closed_forms(program, folder, rep):
               "the offsets modulo (w, h) like the length function",
               construct="vector reduction", node=fn2)
     # minimum is taken over the candidate lengths
-    mn = [c for c in calls_in(fn2, "min") if c.args and
-          chain(c.args[0]) == "approaches"]
+    T2 = Terms(fn2)
     okk = False
-    for c in mn:
+    for c in calls_in(fn2, "min"):
         for k in c.keywords:
-            if k.arg == "key" and isinstance(k.value, ast.Lambda):
-                b = unparse(k.value.body)
-                a = k.value.args.args[0].arg
-                okk = b.startswith("%s[0] + random" % a)
+            if k.arg != "key":
+                continue
+            kt = T2.term(k.value, T2.cfg.node_containing(c))
+            body = arg0 = None
+            if kt[0] == "lambda" and kt[1] == 1:
+                body, arg0 = kt[2], ("lparam", 0)
+            elif kt[0] == "local":
+                nd = [x for x in ast.walk(fn2)
+                      if isinstance(x, ast.FunctionDef) and x.name == kt[1]]
+                if nd and len(formals(nd[0])) == 1:
+                    NT = Terms(nd[0])
+                    rr = [NT.term(r.value) for r in returns_of(nd[0])
+                          if r.value is not None]
+                    if len(rr) == 1:
+                        body, arg0 = rr[0], ("param", formals(nd[0])[0])
+            if body is not None and body[0] == "binop" and body[1] == "Add":
+                parts = [plain(body[2]), plain(body[3])]
+                rnd = ("call", ("attr", ("global", "random"), "random"), (),
+                       ())
+                okk = rnd in parts and ("comp", arg0, 0) in parts
     rep.check(okk, "C11-R3", qual(fn2), "the shortest candidate is chosen "
               "(ties broken randomly by a fraction < 1)",
               construct="candidate selection", node=fn2)
-    # spiral bound: truncated quotient
-    for var, size in (("x", "height"), ("y", "width")):
-        ms = [d for d in f2.defs if d.var == "max_spirals" and
-              size in unparse(d.value)]
-        ok = False
+    # spiral bound: truncated quotient, by the sign of the component
+    mz = [c for c in calls_in(fn2, "minimise_xyz")]
+    if len(mz) != 1:
+        raise AnalysisError("shortest_torus_path: minimise_xyz")
+    MZ = T2.term(mz[0])
+    for var, k, size in (("x", 0, "height"), ("y", 1, "width")):
+        Vt = T2._comp(MZ, k, 3)
+        S = ("param", size)
+        ok = True
         detail = ""
-        if len(ms) == 1:
-            v = ms[0].value
-            detail = unparse(v)
-            if isinstance(v, ast.BinOp) and isinstance(v.op, ast.FloorDiv) \
-                    and isinstance(v.left, ast.IfExp) and \
-                    unparse(v.right) == size:
-                t = v.left
-                neg = f2.sym(t.body, ms[0].node)
-                pos = f2.sym(t.orelse, ms[0].node)
-                V = f2.symvar(var, ms[0].node)
-                S = f2.symvar(size, ms[0].node)
-                ok = unparse(t.test) == "%s < 0" % var and \
-                    neg == V + S - 1 and pos == V
+        for neg in (True, False):
+            Hh = T2.under((mk_cmp("Lt", Vt, ("const", 0)), neg))
+            found = []
+            for b_ in Hh.binds:
+                if b_.mode not in ("assign", "aug") or b_.value is None or \
+                        not Hh.live(b_.node):
+                    continue
+                t = Hh._bind_term(b_)
+                if not (t[0] == "binop" and t[1] == "Mult" and
+                        S in (t[2], t[3])):
+                    continue
+                r_ = t[3] if t[2] == S else t[2]
+                if r_[0] == "callv" and r_[1][0] == "attr" and \
+                        r_[1][2] == "randint" and len(r_[2]) == 2:
+                    lo, hi = plain(r_[2][0]), plain(r_[2][1])
+                    if lo[0] == "call" and lo[1] == ("global", "min") and \
+                            hi[0] == "call" and hi[1] == ("global", "max"):
+                        ms = [z for z in lo[2] if z != ("const", 0)]
+                        ms2 = [z for z in hi[2] if z != ("const", 0)]
+                        if ms == ms2 and len(ms) == 1:
+                            found.append(ms[0])
+            f2b = Flow(fn2)
+            exp_neg = ("binop", "FloorDiv",
+                       ("binop", "Sub", ("binop", "Add", plain(Vt), S),
+                        ("const", 1)), S)
+            exp_pos = ("binop", "FloorDiv", plain(Vt), S)
+            want_t = exp_neg if neg else exp_pos
+            good = [m_ for m_ in found if m_[0] == "binop" and
+                    m_[1] == "FloorDiv" and m_[3] == S and
+                    _lin(f2b, m_[2]) == _lin(f2b, want_t[2])]
+            if len(good) != 1:
+                ok = False
+                detail = "; ".join(show(m_)[:80] for m_ in found)
         rep.check(ok, "C11-R3", qual(fn2), "spiral bound for %s = quotient "
                   "of %s by %s truncated toward zero ((v + s - 1) // s for "
                   "negative v, v // s otherwise)" % (var, var, size),
-                  construct="spiral bound %s: %s" % (var, detail), node=fn2,
+                  construct="spiral bound %s" % var, node=fn2,
                   fail="the number of whole spirals available along %s is "
                        "computed as %s, which is not %s/%s truncated toward "
                        "zero: the adjusted vector can overshoot" % (
                            var, detail, var, size))
     rep.floor("C11-R3", 12)
+
+
+def r4_stateless(program, rep):
+    """The distance / direction functions are functions of their arguments:
+    none of them writes module-level state (a memo keyed on part of the
+    arguments makes a later answer depend on earlier calls)."""
+    from ..effects import Effects
+    eff = Effects(program)
+    n = 0
+    for m in (GEO, "rig.links", RU):
+        program.module(m)
+        for q, fn in program.functions(m):
+            inst = "%s:%s" % (m, q)
+            bad = None
+            for e in eff.analyse(fn):
+                if e.kind == "mutate":
+                    for o in e.origins:
+                        if o[0] == "G" and o[1] != "?":
+                            bad = (e, "%s.%s" % (o[1], o[2]))
+            n += 1
+            if bad:
+                rep.bad("C11-R4", inst, "writes module state %s" % bad[1],
+                        "%s writes the module-level %s (%s): its result can "
+                        "depend on earlier calls" % (q, bad[1], bad[0].text),
+                        bad[0].node)
+            else:
+                rep.ok("C11-R4", inst, "%s writes no module-level state" % q,
+                       fn)
+    rep.floor("C11-R4", 15)
 
 
 def check(program, rep):
@@ -469,6 +691,7 @@ def check(program, rep):
     rep.guard("C11-R1", r1_tables, program, folder, rep)
     rep.guard("C11-R2", r2_walk, program, folder, rep)
     rep.guard("C11-R3", r3_closed_forms, program, folder, rep)
+    rep.guard("C11-R4", r4_stateless, program, rep)
     return finish(rep, program, EXPLANATION, NOT_DECIDED,
                   trusted=["link vector table VEC in rules/C11.py",
                            "ORDTYPE evaluator"], exhaustive=True)
